@@ -157,6 +157,9 @@ func parseScenario(s string) (scenario, error) {
 	for _, x := range serverNames {
 		okName = okName || x == sc.name
 	}
+	for _, x := range ipServerNames {
+		okName = okName || (x == sc.name && (sc.ca == "A" || sc.ca == "U"))
+	}
 	if !okCA || !okName {
 		return scenario{}, fmt.Errorf("bad scenario %q", s)
 	}
@@ -177,6 +180,38 @@ func allScenarios() []string {
 		out = append(out, s+"/tls12")
 	}
 	return out
+}
+
+// edgeScenarios: servers for the edge-value sweep - DNS-named and IP-named certificates of a
+// suppliable issuer (A) and of the untrusted one (U).
+func edgeScenarios() []string {
+	return []string{"A/srv.test", "A/other.test", "A/192.0.2.10", "A/2001:db8::1", "U/srv.test", "U/192.0.2.10", "U/2001:db8::1"}
+}
+
+// nameMatch is three-valued: "must" when the verified name is byte-equal to the name in the
+// certificate; "may" when the two are equal only after the foldings host-name comparison is
+// allowed to apply (ASCII case, one trailing dot, brackets around an IP literal, IPv4 vs
+// IPv4-mapped IPv6) - the property text does not speak about those; "mustnot" otherwise.
+func nameMatch(verified, certName string) string {
+	if verified == certName {
+		return "must"
+	}
+	fold := func(x string) string {
+		x = strings.ToLower(x)
+		x = strings.TrimSuffix(x, ".")
+		if strings.HasPrefix(x, "[") && strings.HasSuffix(x, "]") {
+			x = x[1 : len(x)-1]
+		}
+		return x
+	}
+	a, b := fold(verified), fold(certName)
+	if a == b {
+		return "may"
+	}
+	if ia, ib := net.ParseIP(a), net.ParseIP(b); ia != nil && ib != nil && ia.Equal(ib) {
+		return "may"
+	}
+	return "mustnot"
 }
 
 type hsResult struct {
@@ -350,7 +385,7 @@ func judgeHandshake(c Case, rf ref, scen string, h hsResult) (class, what string
 	if eff == "" {
 		eff = dialHost
 	}
-	nameOK := sc.name == eff
+	nm := nameMatch(eff, sc.name)
 	trust := "mustnot"
 	switch {
 	case rf.rootSlot && rf.rootMust[sc.ca]:
@@ -382,7 +417,7 @@ func judgeHandshake(c Case, rf ref, scen string, h hsResult) (class, what string
 			if trust == "mustnot" {
 				return "handshake/accepted-unsupplied-root", desc
 			}
-			if !nameOK {
+			if nm == "mustnot" {
 				return "handshake/accepted-wrong-name", desc
 			}
 		}
@@ -400,7 +435,7 @@ func judgeHandshake(c Case, rf ref, scen string, h hsResult) (class, what string
 	}
 	// refused
 	// (a server limited to TLS 1.2 may be refused: the text sets a floor, not the floor's value)
-	if !sc.old && !sc.tls12 && c.Callback != "reject" && trust == "must" && nameOK {
+	if !sc.old && !sc.tls12 && c.Callback != "reject" && trust == "must" && nm == "must" {
 		return "handshake/rejected-supplied-root", desc
 	}
 	return "", ""
